@@ -23,6 +23,39 @@ contains
     call ier_out(ier); call nl()
   end subroutine
 
+  ! a SECOND file open at the same time (<file>.B): open2 / close2 act on the other handle, swap exchanges the two
+  ! handles, so that every other operation can be given the handle of the file that does NOT hold the position
+  subroutine op_open2()
+    character(len=:), allocatable :: m
+    integer :: ier, mode, newfn, ft
+    m = tw()
+    mode = CG_MODE_READ
+    if (m(1:1) == 'w') mode = CG_MODE_WRITE
+    if (m(1:1) == 'm') mode = CG_MODE_MODIFY
+    ft = CG_FILE_ADF
+    if (backend == 1) ft = CG_FILE_HDF5
+    call cg_set_file_type_f(ft, ier)
+    newfn = fn2
+    call cg_open_f(trim(path1) // '.B', mode, newfn, ier)
+    fn2 = newfn
+    if (ier == 0) fn2_open = 1
+    call ier_out(ier); call nl()
+  end subroutine
+
+  subroutine op_close2()
+    integer :: ier
+    call cg_close_f(fn2, ier)
+    if (ier == 0) fn2_open = 0
+    call ier_out(ier); call nl()
+  end subroutine
+
+  subroutine op_swap()
+    integer :: t
+    t = fn; fn = fn2; fn2 = t
+    t = fn_open; fn_open = fn2_open; fn2_open = t
+    call emit('swap'); call nl()
+  end subroutine
+
   subroutine op_close()
     integer :: ier
     call cg_close_f(fn, ier)
